@@ -10,6 +10,11 @@ from pyvc import ctx as _ctx  # noqa: E402
 from pyvc.heap import Box, _default_of  # noqa: E402
 from pyvc.types import Ty  # noqa: E402
 
+# the engine records str(goal)[:600] of every obligation; the goals here contain store chains over a dozen
+# freshly created events, and z3's python pretty printer spends more time on them than the solver does.
+# Bounding the printer only abbreviates that recorded text (this process only).
+z3.set_option(max_depth=10, max_args=12, max_lines=30, max_visited=2000)
+
 F_PAXOS = "happysimulator/components/consensus/paxos.py"
 F_LOCK = "happysimulator/components/consensus/distributed_lock.py"
 
@@ -25,7 +30,7 @@ loop(F_PAXOS, "PaxosNode._start_phase2", 1, modifies=[("PaxosNode", "g_pick")],
      types={"g_n": lambda: Int, "highest_accepted_ballot": lambda: Opt(BTUP), "chosen_value": lambda: Any}, inv=[
     ("ghost-counter-is-the-index", lambda L: L.g_n == L.i),
     ("chosen-value-is-that-of-the-highest-accepted-ballot-seen-else-the-clients", lambda L: pick_ok(
-        L.self, seq_term(L.seq), L.i, L.self.g_pick, L.chosen_value, L.old(L.self)._proposed_values.get(L.ballot_number),
+        L.self, seq_term(L.seq), L.i, L.self.g_pick, L.chosen_value, registered_value(L.old(L.self), L.ballot_number),
         L.highest_accepted_ballot))])
 
 from specs.common import *  # noqa: E402,F401
@@ -309,7 +314,51 @@ cls(SimFuture, fields={"_resolved": Bool, "_value": Any, "_parked_process": Any,
                        "_parked_context": Any, "_settle_callbacks": Seq(Any)})
 cls(Network, fields={})
 
-PROMISE = Record("promise", {"from": OPTSTR, "accepted_ballot": Opt(BTUP), "accepted_value": Any})
+class FixedRec(Ty):
+    """dict literal with a fixed set of keys, all always present (both sites that build a promise record write
+    exactly these keys; storing a dict with any other key set is OUT-OF-REACH, so the typing is checked)"""
+
+    def __init__(self, name, fields):
+        self.name, self.fields = name, dict(fields)
+        d = z3.Datatype("FRec_" + name)
+        d.declare("mk", *[("f_" + k, ty.sort()) for k, ty in self.fields.items()])
+        self.dt = d.create()
+
+    def sort(self):
+        return self.dt
+
+    def acc(self, k):
+        return getattr(self.dt, "f_" + k)
+
+    def wrap(self, term, loc=None):
+        return FixedRecProxy(term, self)
+
+    def unwrap(self, v):
+        if isinstance(v, FixedRecProxy) and v._ty is self:
+            return v._t
+        if isinstance(v, dict) and set(v) == set(self.fields):
+            return self.dt.mk(*[ty.unwrap(v[k]) for k, ty in self.fields.items()])
+        raise OutOfReach(f"{type(v).__name__} stored where fixed record {self.name} is declared")
+
+
+class FixedRecProxy:
+    """read-only view (the code never mutates a stored promise record)"""
+
+    def __init__(self, t, ty):
+        self._t, self._ty = t, ty
+
+    def __getitem__(self, k):
+        if k not in self._ty.fields:
+            raise KeyError(k)
+        return self._ty.fields[k].wrap(self._ty.acc(k)(self._t))
+
+    def get(self, k, default=None):
+        return self[k] if k in self._ty.fields else default
+
+    __hash__ = None
+
+
+PROMISE = FixedRec("promise", {"from": OPTSTR, "accepted_ballot": Opt(BTUP), "accepted_value": Any})
 NODE = Ref(PaxosNode)
 FUTS = Map(Int, Ref(SimFuture))
 cls(PaxosNode, fields={
@@ -318,10 +367,97 @@ cls(PaxosNode, fields={
     "_current_ballot": BALLOT, "_proposal_futures": FUTS,
     "_phase1_responses": Map(Int, Seq(PROMISE)), "_phase2_responses": Map(Int, Int),
     "_proposed_values": Map(Int, Any),
+    # the implementation's record of the design's ghost map `sent_accept` (own ballot number -> the one value
+    # offered in phase 2) and of `accepters` (distinct acceptor ids per ballot); both fields are introduced by
+    # fixes/C12_paxos-phase2-once.diff - on the unrepaired tree nothing maintains them and the A2/A3 clauses fail
+    "_accept_sent": Map(Int, Any), "_phase2_acceptors": Map(Int, Set(Str)),
     "_decided": Bool, "_decided_value": Any,
     "_proposals_started": Int, "_proposals_succeeded": Int, "_proposals_failed": Int,
     "_promises_received": Int, "_nacks_received": Int, "_accepts_received": Int},
+    ghost={"g_pick": Int},
     const=["_network", "_peers", "_retry_delay"])
+ACCS = Map(Int, Set(Str))
+SENT = Map(Int, Any)
+P1 = Map(Int, Seq(PROMISE))
+OBT = Opt(BTUP).dt
+
+
+def map_has(ty, m, k):
+    """raw: key k (python / symbolic int) is in the raw map term m of Map type ty"""
+    return z3.Select(ty.dt.dom(m), zi(k))
+
+
+def map_val(ty, m, k):
+    return z3.Select(ty.dt.val(m), zi(k))
+
+
+def any_or_none(ty, m, k):
+    """raw Any term of m.get(k) (python None when absent)"""
+    return z3.If(map_has(ty, m, k), map_val(ty, m, k), Any.unwrap(None))
+
+
+def sent_accept(o):
+    return field_term(o, "_accept_sent")
+
+
+def accepters(o, b):
+    """raw Array(Str, Bool): the distinct acceptors recorded for own ballot number b"""
+    return Set(Str).dt.dom(map_val(ACCS, field_term(o, "_phase2_acceptors"), b))
+
+
+def n_accepters(o, b):
+    return mk_num(Set(Str).dt.size(map_val(ACCS, field_term(o, "_phase2_acceptors"), b)))
+
+
+def responses(o, b):
+    """raw Seq(PROMISE) term: the promises recorded for own ballot number b"""
+    return map_val(P1, field_term(o, "_phase1_responses"), b)
+
+
+def ab_none(r):
+    """the raw promise record r reports no accepted ballot"""
+    return OBT.is_none(PROMISE.acc("accepted_ballot")(r))
+
+
+def ab_of(r):
+    """raw (number, node) tuple term of the accepted ballot a promise record reports"""
+    return OBT.val(PROMISE.acc("accepted_ballot")(r))
+
+
+def tup_le(x, y):
+    return b_le_raw(BTUP.acc(0)(x), BTUP.acc(1)(x), BTUP.acc(0)(y), BTUP.acc(1)(y))
+
+
+def pick_ok(o, seq, upto, pick, chosen, orig_t, highest="unset"):
+    """A2 (second half): among the first `upto` promise records of raw sequence `seq`, `pick` is the index of one
+    reporting the highest accepted ballot and `chosen` is the value it reports; pick == -1 when none reports an
+    accepted ballot, then `chosen` is the value registered for the ballot (raw term orig_t)"""
+    p, n = zi(pick), zi(upto)
+    ch = Any.unwrap(chosen)
+    none_case = forall(Int, lambda k: implies((0 <= k) & mk_bool(k.t < n), mk_bool(ab_none(seq[k.t]))), "k") & mk_bool(ch == orig_t)
+    rp = seq[p]
+    some_case = (mk_bool(z3.And(0 <= p, p < n, z3.Not(ab_none(rp)), ch == PROMISE.acc("accepted_value")(rp)))
+                 & forall(Int, lambda k: implies((0 <= k) & mk_bool(k.t < n), mk_bool(z3.Or(ab_none(seq[k.t]), tup_le(ab_of(seq[k.t]), ab_of(rp))))), "k"))
+    ok = mk_bool(p >= -1) & implies(mk_bool(p == -1), none_case) & implies(mk_bool(p != -1), some_case)
+    if highest != "unset":
+        if highest is None:
+            ok = ok & mk_bool(p == -1)
+        else:
+            ok = ok & mk_bool(z3.And(p != -1, ab_of(rp) == BTUP.unwrap(highest)))
+    return ok
+
+
+def offered_ballots_have_acceptor_sets(o):
+    return forall(Int, lambda b: implies(mk_bool(map_has(SENT, sent_accept(o), b)),
+                                         mk_bool(map_has(ACCS, field_term(o, "_phase2_acceptors"), b))), "b")
+
+
+def offers_never_change(old, new):
+    """A2 (first half): the value offered in phase 2 of a ballot is fixed once and for all - every Accept of that
+    ballot carries it (see `_start_phase2`: Accepts are created only together with the record)"""
+    return forall(Int, lambda b: implies(mk_bool(map_has(SENT, sent_accept(old), b)),
+                                         mk_bool(z3.And(map_has(SENT, sent_accept(new), b),
+                                                        map_val(SENT, sent_accept(new), b) == map_val(SENT, sent_accept(old), b)))), "b")
 
 
 def promised(o):
@@ -349,10 +485,14 @@ NODE_INV = [
     ("cluster-of-3-to-5", lambda o: (2 <= slen(o._peers)) & (slen(o._peers) <= 4)),
     # A1: whatever was accepted was accepted under a promise at least as high
     ("accepted-ballot-never-above-promise", lambda o: ob_le(accepted(o), promised(o))),
+    ("own-ballots-carry-own-name", lambda o: o._current_ballot.node_id == o.name),
+    ("every-offered-ballot-has-its-acceptor-set", offered_ballots_have_acceptor_sets),
 ]
 NODE_GUAR = [
     ("A1-promise-never-decreases", lambda old, new: ob_le(promised(old), promised(new))),
     ("A1-accepted-ballot-never-decreases", lambda old, new: ob_le(accepted(old), accepted(new))),
+    ("A2-value-offered-for-a-ballot-never-changes", offers_never_change),
+    ("own-ballot-numbers-never-decrease", lambda old, new: new._current_ballot.number >= old._current_ballot.number),
     ("A3-decision-is-stable", lambda old, new: implies(old._decided, new._decided & (new._decided_value == old._decided_value))),
 ]
 cls(PaxosNode, inv=NODE_INV, guarantee=NODE_GUAR)
@@ -583,3 +723,84 @@ fn(PaxosNode, "_handle_accept", args={"event": Ref(Event)},
     ("A1-accepts-iff-not-below-promise--stores-exactly-the-offered-ballot-and-value--else-nack", _accept_post),
     ("learner-and-proposer-state-untouched", lambda s: unchanged(
         s, s.self, "_decided", "_decided_value", "_current_ballot", "_proposed_values", "_phase1_responses", "_phase2_responses"))])
+
+
+# ---- proposer (A2) ----------------------------------------------------------------------------------
+def registered_value(o, b):
+    """raw Any term: the value registered for own ballot number b (the client's, or what a retry carried over)"""
+    return any_or_none(SENT, field_term(o, "_proposed_values"), b)
+
+
+def own_ballot(o, b):
+    """raw Ballot term (b, own name)"""
+    return BD.mk(z3.IntVal(0), zi(b), zs(o.name))
+
+
+def quorum(o):
+    """strict majority of the cluster (peers + this node), no fork"""
+    return mk_num((z3.Length(seq_term(o._peers)) + 1) / 2 + 1)
+
+
+EMPTY_STRS = z3.K(z3.StringSort(), z3.BoolVal(False))
+
+
+def phase2_effect(s, b, es):
+    """what starting phase 2 of own ballot number b must look like; `es` are the events created by it"""
+    old, new = s.old(s.self), s.self
+    v = map_val(SENT, sent_accept(new), b)
+    me = own_ballot(new, b)
+    resp = responses(new, b)
+    may_self_accept = mk_bool(z3.Or(OB.is_none(promised(old)), z3.Not(bt_lt(me, OB.val(promised(old))))))
+    return [
+        ("A2-phase-2-of-a-ballot-starts-only-once-and-only-while-the-ballot-is-still-registered",
+         Not(mk_bool(map_has(SENT, sent_accept(old), b))) & mk_bool(map_has(SENT, field_term(old, "_proposed_values"), b))),
+        ("A2-phase-2-needs-a-quorum-of-promises", mk_bool(z3.Length(resp) >= num(quorum(new)))),
+        ("A2-every-peer-is-offered-the-one-recorded-value-under-the-own-ballot",
+         mk_bool(map_has(SENT, sent_accept(new), b)) & one_per_peer(s, "PaxosAccept", lambda m: (
+             mhas(m, "value", *BALLOT_KEYS) & mk_bool(bt_eq(msg_ballot(m), me)) & mk_bool(M.f_value(m) == v)), es)),
+        ("A2-offered-value-is-that-of-the-highest-accepted-ballot-among-the-promises-else-the-registered-one",
+         pick_ok(new, resp, mk_num(z3.Length(resp)), new.g_pick, Any.wrap(v), registered_value(old, b))),
+        ("A1-proposer-accepts-its-own-offer-only-if-not-below-its-promise", ite_b(
+            may_self_accept,
+            holds_ballot(accepted(new), me) & mk_bool(field_term(new, "_accepted_value") == v)
+            & mk_bool(accepters(new, b) == z3.Store(EMPTY_STRS, zs(new.name), z3.BoolVal(True))),
+            unchanged(s, new, "_accepted_ballot", "_accepted_value") & mk_bool(accepters(new, b) == EMPTY_STRS))),
+        ("A3-no-decision-without-a-quorum-of-acceptances", iff(new._decided, old._decided)),
+    ]
+
+
+PHASE2_CLAUSES = 6
+
+
+def _start_phase2_clause(i):
+    def clause(s):
+        es = msgs(s)
+        if len(es) == 0:
+            return True
+        return phase2_effect(s, s.ballot_number, es)[i][1]
+    return clause
+
+
+def _p2_names():
+    class _S:       # names only
+        pass
+    return ["A2-phase-2-of-a-ballot-starts-only-once-and-only-while-the-ballot-is-still-registered",
+            "A2-phase-2-needs-a-quorum-of-promises",
+            "A2-every-peer-is-offered-the-one-recorded-value-under-the-own-ballot",
+            "A2-offered-value-is-that-of-the-highest-accepted-ballot-among-the-promises-else-the-registered-one",
+            "A1-proposer-accepts-its-own-offer-only-if-not-below-its-promise",
+            "A3-no-decision-without-a-quorum-of-acceptances"]
+
+
+def nothing_offered(s):
+    """no Accept was created: acceptor, learner and offer records are untouched"""
+    return unchanged(s, s.self, "_accepted_ballot", "_accepted_value", "_promised_ballot", "_accept_sent",
+                     "_phase2_acceptors", "_decided", "_decided_value")
+
+
+fn(PaxosNode, "_start_phase2", args={"ballot_number": Int}, uses=[FUT_RESOLVE],
+   requires=[("called-for-a-ballot-in-phase-1-with-a-quorum-of-promises", lambda s: contains(s.self._phase1_responses, s.ballot_number)
+              & mk_bool(z3.Length(responses(s.self, s.ballot_number)) >= num(quorum(s.self))))],
+   ensures=[(n, _start_phase2_clause(i)) for i, n in enumerate(_p2_names())] + [
+    ("without-an-offer-nothing-changes", lambda s: True if len(msgs(s)) else nothing_offered(s)),
+    ("promises-and-ballot-untouched", lambda s: unchanged(s, s.self, "_phase1_responses", "_current_ballot", "_promised_ballot"))])
